@@ -46,6 +46,7 @@ class Ctx:
         self.memo = {}
         self.feas_timeout = 800
         self.sqrt_hints = []
+        self.sign_hints = []
         self.probe_env = None
         self.nosplit = False
         self.notes = []
@@ -141,6 +142,8 @@ class Obligation:
         self.ctx = c
         self.kind = 'poly-id' if b.eq is not None else 'smt'
         self.tol = b.tol
+        self.rel = b.rel
+        self.sign_hints = list(c.sign_hints)
 
 
 # ---------------------------------------------------------------------------
@@ -262,12 +265,16 @@ class R:
 
     # arithmetic -------------------------------------------------------
     def __add__(self, o):
+        if hasattr(o, 'flat_items'):
+            return NotImplemented
         return _add(self, o, 1)
 
     def __radd__(self, o):
         return _add(lift(o), self, 1)
 
     def __sub__(self, o):
+        if hasattr(o, 'flat_items'):
+            return NotImplemented
         return _add(self, o, -1)
 
     def __rsub__(self, o):
@@ -280,12 +287,16 @@ class R:
         return self
 
     def __mul__(self, o):
+        if hasattr(o, 'flat_items'):
+            return NotImplemented
         return _mul(self, o)
 
     def __rmul__(self, o):
         return _mul(self, o)
 
     def __truediv__(self, o):
+        if hasattr(o, 'flat_items'):
+            return NotImplemented
         return _div(self, o)
 
     def __rtruediv__(self, o):
@@ -315,16 +326,16 @@ class R:
 
     # comparisons --------------------------------------------------------
     def __lt__(self, o):
-        return B(self.z < lift(o).z)
+        return B(self.z < lift(o).z, rel=('>', o, self))
 
     def __le__(self, o):
-        return B(self.z <= lift(o).z)
+        return B(self.z <= lift(o).z, rel=('>=', o, self))
 
     def __gt__(self, o):
-        return B(self.z > lift(o).z)
+        return B(self.z > lift(o).z, rel=('>', self, o))
 
     def __ge__(self, o):
-        return B(self.z >= lift(o).z)
+        return B(self.z >= lift(o).z, rel=('>=', self, o))
 
     def __eq__(self, o):
         if o is None:
@@ -335,7 +346,7 @@ class R:
     def __ne__(self, o):
         if o is None:
             return True
-        return B(self.z != lift(o).z)
+        return B(self.z != lift(o).z, rel=('!=', self, o))
 
     __hash__ = None
 
@@ -416,7 +427,8 @@ def _div(a, b):
         a = lift(a)
     c = ctx()
     # safety obligation: denominator non-zero (cheap syntactic discharge for known-nonzero)
-    c.oblige('div_nonzero', B(b.n != 0))
+    c.oblige('div_nonzero', B(b.n != 0, rel=('!=', R(b.n), 0)))
+    c.facts.append(b.n != 0)          # cut
     ang = None
     cb = ang_const(b.ang)
     if cb is not None and cb[0] != 0:
@@ -560,12 +572,13 @@ class I:
 # symbolic bool
 
 class B:
-    __slots__ = ('z', 'eq', 'tol')
+    __slots__ = ('z', 'eq', 'tol', 'rel')
 
-    def __init__(self, z, eq=None, tol=None):
+    def __init__(self, z, eq=None, tol=None, rel=None):
         self.z = z
         self.eq = eq
         self.tol = tol
+        self.rel = rel          # (op, a, b) meaning  a - b  op  0   with op in '>', '>=', '!='
 
     def __bool__(self):
         c = ctx()
@@ -995,7 +1008,7 @@ def sqrt(x, nonneg_known=False):
             continue
         if _quick_differs(c, p):
             continue
-        r_ = _cert.prove_eq(p, c.hyps, c.order, timeout=20)
+        r_ = _cert.prove_eq(p, c.hyps, c.order, timeout=20, facts=c.facts + c.pc)
         if r_['status'] != 'discharged':
             continue
         sol = z3.Solver()
@@ -1054,11 +1067,11 @@ def acos_sin(x):
         return math.sqrt(max(0.0, 1 - x * x))
     c = ctx()
     x = lift(x)
-    dom = conj(x >= -1, x <= 1)
-    c.oblige('arccos_domain', dom)
-    c.assume(dom)          # cut
-    # (1-x)(1+x) >= 0 follows from the domain obligation just emitted (product of two non-negatives)
-    return sqrt((1 - x) * (1 + x), nonneg_known=True)
+    rad = (1 - x) * (1 + x)
+    # -1 <= x <= 1  <=>  (1-x)(1+x) >= 0
+    c.oblige('arccos_domain', rad >= 0)
+    c.assume(conj(rad >= 0, x >= -1, x <= 1))          # cut
+    return sqrt(rad, nonneg_known=True)
 
 
 def arccos(x):
@@ -1131,11 +1144,11 @@ def arctan2(y, x):
     key = ('arctan2', y.z.sexpr(), x.z.sexpr())
     if key in c.memo:
         return c.memo[key]
-    c.oblige('arctan2_nonzero', Or(x != 0, y != 0))
     zy, zx = y.z, x.z
     # theta = arctan2(y, x): cos IS x/rho, sin IS y/rho with rho = sqrt(x^2+y^2) > 0
     rho = sqrt(x * x + y * y)
-    c.facts.append(rho.z > 0)
+    c.oblige('arctan2_nonzero', lift(rho) > 0)        # (x, y) != (0, 0)
+    c.facts.append(lift(rho).z > 0)
     nm = c.fresh('atan2')
     th = angle(nm, numdef=lambda env: math.atan2(numeval(zy, env), numeval(zx, env)))
     c.atoms[(nm, Fraction(1), 0)] = (x / rho, y / rho)
